@@ -11,6 +11,8 @@ def _jobs(tier):
     for k in range(1, 17):
         jobs.append(dict(sub="vec", count=geo(k, 5000, 7, 40) * mult, fix=dict(k=k)))
         jobs.append(dict(sub="idft", count=geo(k, 800, 7, 12) * mult, fix=dict(k=k)))
+        jobs.append(dict(sub="vec", count=geo(k, 1200, 6, 10) * mult, fix=dict(k=k), flavour="asan"))
+        jobs.append(dict(sub="idft", count=geo(k, 200, 6, 4) * mult, fix=dict(k=k), flavour="asan"))
     jobs.append(dict(sub="normalize", count=6000 * mult, fix=dict(kN=(1, 6)), split=4))
     jobs.append(dict(sub="normalize", count=600 * mult, fix=dict(kN=(7, 12))))
     jobs.append(dict(sub="fftvec", count=8000 * mult, fix=dict(logm=(0, 8)), split=4))
